@@ -158,6 +158,8 @@ def run(ctx):
         if v == 'fail':
             ctx.violation(case, 'regression corpus %s: %s' % (os.path.basename(path), why))
     sweep = list(asmgen.boundary_sweep_programs([16, 256, 4096] if quick else [16, 256, 4096, 65536]))
+    # growth chains: layouts that need one pass per link (a listing printed from a layout that stopped early is stale)
+    sweep += list(asmgen.growth_chain_programs([5, 12, 40, 100] if quick else [5, 12, 40, 100, 300, 1000]))
     import multiprocessing
     W = driver.NCPU
     with multiprocessing.get_context('fork').Pool(W) as pool:
